@@ -241,10 +241,7 @@ public:
 				*this = dd(SpecificValue::qnan);
 			}
 			else {
-				// auto signA = std::copysign(1.0, hi);
-				// auto signB = std::copysign(1.0, rhs.hi);
-				// *this = (signA * signB) * dd(SpecificValue::infpos);
-				*this = dd(SpecificValue::infpos);
+				setinf(std::signbit(hi) != std::signbit(rhs.hi));  // signed infinity, as for doubles
 			}
 			return *this;
 		}
